@@ -112,6 +112,23 @@ Theorem C03_decisions_as_transcribed :
      [x69; x66; x20; x68; x3d; x3d; x68; x6f; x73; x74] (* if h==host *);
      [x72; x65; x74; x75; x72; x6e; x20; x74; x72; x75; x65; x2c; x6e; x69; x6c] (* return true,nil *);
      [x72; x65; x74; x75; x72; x6e; x20; x66; x61; x6c; x73; x65; x2c; x66; x6d; x74; x2e; x45; x72; x72; x6f; x72; x66; x28; x22; x69; x6e; x76; x61; x6c; x69; x64; x20; x68; x6f; x73; x74; x20; x25; x73; x22; x2c; x68; x6f; x73; x74; x29] (* return false,fmt.Errorf("invalid host %s",host) *);
-     [x72; x65; x74; x75; x72; x6e; x20; x66; x61; x6c; x73; x65; x2c; x65; x72; x72; x6f; x72; x73; x2e; x4e; x65; x77; x28; x22; x75; x6e; x72; x65; x63; x6f; x67; x6e; x69; x7a; x65; x64; x20; x68; x6f; x73; x74; x20; x73; x65; x6c; x65; x63; x74; x69; x6f; x6e; x20; x63; x72; x69; x74; x65; x72; x69; x61; x22; x29] (* return false,errors.New("unrecognized host selection criteria") *)].
+     [x72; x65; x74; x75; x72; x6e; x20; x66; x61; x6c; x73; x65; x2c; x65; x72; x72; x6f; x72; x73; x2e; x4e; x65; x77; x28; x22; x75; x6e; x72; x65; x63; x6f; x67; x6e; x69; x7a; x65; x64; x20; x68; x6f; x73; x74; x20; x73; x65; x6c; x65; x63; x74; x69; x6f; x6e; x20; x63; x72; x69; x74; x65; x72; x69; x61; x22; x29] (* return false,errors.New("unrecognized host selection criteria") *)] /\
+  DECISIONS_CheckSession =
+    [[x72; x65; x74; x75; x72; x6e; x20; x3c; x2a; x61; x73; x74; x2e; x46; x75; x6e; x63; x4c; x69; x74; x3e] (* return <*ast.FuncLit> *);
+     [x69; x66; x20; x74; x75; x6e; x6e; x65; x6c; x3d; x3d; x6e; x69; x6c] (* if tunnel==nil *);
+     [x72; x65; x74; x75; x72; x6e; x20; x66; x61; x6c; x73; x65; x2c; x65; x72; x72; x6f; x72; x73; x2e; x4e; x65; x77; x28; x22; x6e; x6f; x20; x76; x61; x6c; x69; x64; x20; x73; x65; x73; x73; x69; x6f; x6e; x20; x69; x6e; x66; x6f; x20; x66; x6f; x75; x6e; x64; x20; x69; x6e; x20; x63; x6f; x6e; x74; x65; x78; x74; x22; x29] (* return false,errors.New("no valid session info found in context") *);
+     [x69; x66; x20; x74; x75; x6e; x6e; x65; x6c; x2e; x54; x61; x72; x67; x65; x74; x53; x65; x72; x76; x65; x72; x21; x3d; x68; x6f; x73; x74] (* if tunnel.TargetServer!=host *);
+     [x72; x65; x74; x75; x72; x6e; x20; x66; x61; x6c; x73; x65; x2c; x6e; x69; x6c] (* return false,nil *);
+     [x69; x66; x20; x56; x65; x72; x69; x66; x79; x43; x6c; x69; x65; x6e; x74; x49; x50; x26; x26; x74; x75; x6e; x6e; x65; x6c; x2e; x52; x65; x6d; x6f; x74; x65; x41; x64; x64; x72; x21; x3d; x69; x64; x2e; x47; x65; x74; x41; x74; x74; x72; x69; x62; x75; x74; x65; x28; x69; x64; x65; x6e; x74; x69; x74; x79; x2e; x41; x74; x74; x72; x43; x6c; x69; x65; x6e; x74; x49; x70; x29] (* if VerifyClientIP&&tunnel.RemoteAddr!=id.GetAttribute(identity.AttrClientIp) *);
+     [x72; x65; x74; x75; x72; x6e; x20; x66; x61; x6c; x73; x65; x2c; x6e; x69; x6c] (* return false,nil *);
+     [x72; x65; x74; x75; x72; x6e; x20; x6e; x65; x78; x74; x28; x63; x74; x78; x2c; x68; x6f; x73; x74; x29] (* return next(ctx,host) *)] /\
+  DECISIONS_DecodeUTF16 =
+    [[x69; x66; x20; x6c; x65; x6e; x28; x62; x29; x25; x32; x21; x3d; x30] (* if len(b)%2!=0 *);
+     [x72; x65; x74; x75; x72; x6e; x20; x22; x22; x2c; x66; x6d; x74; x2e; x45; x72; x72; x6f; x72; x66; x28; x22; x6d; x75; x73; x74; x20; x68; x61; x76; x65; x20; x65; x76; x65; x6e; x20; x6c; x65; x6e; x67; x74; x68; x20; x62; x79; x74; x65; x20; x73; x6c; x69; x63; x65; x22; x29] (* return "",fmt.Errorf("must have even length byte slice") *);
+     [x66; x6f; x72; x20; x69; x3c; x6c; x62] (* for i<lb *);
+     [x69; x66; x20; x6c; x65; x6e; x28; x62; x72; x65; x74; x29; x3e; x30; x26; x26; x62; x72; x65; x74; x5b; x6c; x65; x6e; x28; x62; x72; x65; x74; x29; x2d; x31; x5d; x3d; x3d; x27; x5c; x78; x30; x30; x27] (* if len(bret)>0&&bret[len(bret)-1]=='\x00' *);
+     [x72; x65; x74; x75; x72; x6e; x20; x73; x74; x72; x69; x6e; x67; x28; x62; x72; x65; x74; x29; x2c; x6e; x69; x6c] (* return string(bret),nil *)] /\
+  DECISIONS_channelRequest =
+    [[x72; x65; x74; x75; x72; x6e] (* return *)].
 Proof. vm_compute. repeat split; reflexivity. Qed.
 Print Assumptions C03_decisions_as_transcribed.
